@@ -7,7 +7,6 @@ EXPLANATION = ('Value-flow normal forms of the public stats::split_rhat_mean_ess
                'W = mean_j (1/d) sum_t (x_jt - mean_j)^2 with d in {h, h-1}, var+ = (h-1)/h W + B/h; R-hat = sqrt(var+/W) (orientation); '
                'RunStats::from / from_f32_view agree; basic_stats reports the ends of the sorted data in the direction of the sort, the element at '
                'len div 2, mean and ddof-1 standard deviation; the sort comparator is a total order (total_cmp), never partial_cmp with None mapped to Equal.')
-FLOORS = {'obligations': 17}   # counted on the reference tree; fewer instantiated obligations is reported, never passed silently
 TECHNIQUE = 'value-flow normal form vs specification table (role-located helpers, ndarray access canonicalisation)'
 SAMPLE = S('sample')
 R3 = {SAMPLE: 3}
@@ -137,7 +136,9 @@ def runstats(ctx):
     if b1 is None:
         ctx.unknown('C11.from', A1, 'value', why='anchor not found')
         return
-    ev1 = ctx.evaluate(b1, inline=False)
+    # private helpers (e.g. a shared from_f32_view) are inlined; the two public stages stay symbolic
+    KEEP = ('stats::split_rhat_mean_ess', 'stats::basic_stats')
+    ev1 = ctx.evaluate(b1, no_inline=KEEP, tag='entry')
     f1 = ev1.ret_term
     smp = S('sample')
     conv = [a for a in apps(f1, 'mapv')]
@@ -155,7 +156,7 @@ def runstats(ctx):
         ctx.bad('C11.from', A1, 'value', found=show(f1), expected='RunStats{ess: basic_stats(srme(sample).1), rhat: basic_stats(srme(sample).0)}', sp=b1['sp'],
                 why='diagnostics must be computed from the sample passed in')
     if b2 is not None:
-        f2 = ctx.evaluate(b2, inline=False).ret_term
+        f2 = ctx.evaluate(b2, no_inline=KEEP, tag='entry').ret_term
         g1 = T.subst(f1, {src: smp})
         ctx.eq('C11.from_siblings', A1 + ' ~ RunStats::from_f32_view', 'agreement', f2, g1, sp=b2['sp'],
                why='the generic and the f32 entry point compute the same summary')
